@@ -259,7 +259,7 @@ def rule_r2_fold(text, fold_types, applied):
         applied.append(f'R2(fold#{k})')
 
 
-def rule_r1_break_value(text, applied):
+def rule_r1_break_value(text, applied, breaktypes=None):
     """`break E` in a `loop` -> assignment + break (or `return E` when the loop is the function's tail)."""
     n = 0
     while True:
@@ -304,7 +304,8 @@ def rule_r1_break_value(text, applied):
             else:
                 edits.append((st[b].start, st[e - 1].end, f'{{ {lv} = {expr}; break; }}'))
         if not is_tail:
-            edits.append((st[i].start, st[i].start, f'{{ let {lv}; '))
+            ty = (breaktypes or {}).get(n)
+            edits.append((st[i].start, st[i].start, f'{{ let {lv}{": " + ty if ty else ""}; '))
             edits.append((st[close].end, st[close].end, f' {lv} }}'))
         for a, b_, r in sorted(edits, key=lambda e: (e[0], e[1]), reverse=True):
             text = text[:a] + r + text[b_:]
@@ -578,7 +579,7 @@ def new_fn_spec(attrs):
         'id': attrs['id'], 'file': attrs['file'], 'name': attrs['name'], 'container': attrs.get('in'),
         'props': [p for p in attrs.get('props', '').split(',') if p],
         'ret': None, 'requires': [], 'ensures': [],  # ensures: list of {'label','props','lines'}
-        'loops': {}, 'folds': {}, 'closures': {}, 'ats': [], 'hoist': [], 'lettypes': {}, 'container_extra': [], 'attrs': [],
+        'loops': {}, 'folds': {}, 'closures': {}, 'ats': [], 'hoist': [], 'lettypes': {}, 'breaktypes': {}, 'container_extra': [], 'attrs': [],
         'recommends': [], 'decreases': [], 'stub_only': attrs.get('stub') == 'only', 'trusted_reason': attrs.get('trusted'),
     }
 
@@ -670,6 +671,9 @@ def parse_spec_file(path):
             sect = a['lines']
         elif kw == 'hoist':
             cur['hoist'] += pos
+            sect = None
+        elif kw == 'breaktype':
+            cur['breaktypes'][int(pos[0])] = attrs['type']
             sect = None
         elif kw == 'lettype':
             cur['lettypes'][pos[0]] = attrs['type']
@@ -770,7 +774,7 @@ class Generator:
             if spec['hoist']:
                 text, hoisted = rule_r4_hoist(text, spec['hoist'], applied)
             text = rule_r2_fold(text, spec['folds'], applied)
-            text = rule_r1_break_value(text, applied)
+            text = rule_r1_break_value(text, applied, spec['breaktypes'])
             text = rule_r3_closures(text, spec['closures'], applied, None)
             text = rule_r5_lettype(text, spec['lettypes'], applied)
             segs = splice_annotations(text, spec)
